@@ -19,6 +19,11 @@ use crate::{
 #[derive(Clone, Debug, Serialize, Deserialize)]
 pub struct FaultCase {
     pub hist: Hist,
+    /// the faulted runs issue set/get/del as RESP commands through an in-process server over
+    /// the store (the way a user of the server meets a failing disk): an error reply or a
+    /// connection ended without a reply is the operation's error
+    #[serde(default)]
+    pub via_resp: bool,
 }
 
 fn strategy(tier: Tier) -> BoxedStrategy<FaultCase> {
@@ -35,11 +40,17 @@ fn strategy(tier: Tier) -> BoxedStrategy<FaultCase> {
         3 => workload(tier, false, w, 3, 12, 30),
         1 => crate::props::c03::workload_partial(tier, false, w, 3, 12, 30),
     ];
-    (any::<bool>(), wl)
-        .prop_map(|(sync, mut hist)| {
+    (any::<bool>(), wl, prop_oneof![3 => Just(false), 1 => Just(true)])
+        .prop_map(|(sync, mut hist, via_resp)| {
             hist.cfg.sync_always = sync;
-            // end with a reopen so that the directory is also read back by a recovery
-            FaultCase { hist }
+            if via_resp {
+                // the RESP commands take keys that are UTF-8 strings: keep the fills that are
+                // (NUL bytes, CR/LF, text) and a last byte below 0x80
+                for k in hist.keys.iter_mut() {
+                    k.seed = (k.seed % 8) * 6 + [0u8, 1, 3][(k.seed % 3) as usize];
+                }
+            }
+            FaultCase { hist, via_resp }
         })
         .boxed()
 }
@@ -95,8 +106,9 @@ struct Symptom {
 }
 
 /// Run the workload with the armed fault; returns the symptom of the first discrepancy.
-fn faulted_run(hist: &Hist, dir: &std::path::Path, keys: &[Vec<u8>]) -> (Option<Symptom>, Option<i64>) {
+fn faulted_run(hist: &Hist, dir: &std::path::Path, keys: &[Vec<u8>], via_resp: bool) -> (Option<Symptom>, Option<i64>) {
     let mut ap = OpApplier::new(hist, dir);
+    ap.via_resp = via_resp && keys.iter().all(|k| std::str::from_utf8(k).is_ok());
     let mut fm = FaultModel {
         model: Model::new(),
         alt: None,
@@ -384,7 +396,7 @@ fn exec(c: &FaultCase, env: &Env) -> Outcome {
                 shim::record_start();
             }
             shim::inject_arm(n as i64, errno, short);
-            let (sym, fired_op) = faulted_run(hist, &dir, &keys);
+            let (sym, fired_op) = faulted_run(hist, &dir, &keys, c.via_resp);
             let fired = shim::inject_disarm();
             if dbg {
                 eprintln!("--- site {} {}", n, ename);
@@ -435,6 +447,9 @@ fn exec(c: &FaultCase, env: &Env) -> Outcome {
     if hist.cfg.small_file != u64::MAX {
         out.labels.push("workload-with-arbitrary-merge-thresholds".into());
     }
+    if c.via_resp {
+        out.labels.push("workload-through-the-resp-server".into());
+    }
     for s in &sites {
         out.labels.push(format!("site:{}:{}@{}", s.call, s.file_kind, s.op_class));
     }
@@ -447,7 +462,7 @@ pub fn prop() -> Prop<FaultCase> {
     Prop {
         id: "C20",
         level: "fault_enumeration",
-        rule: "Workloads (3-12 ops quick / up to 30 thorough over set/get/del/merge/reopen, entries below and above the 8 KiB write buffer, rollovers, all-eligible merges, sync none or always) are generated by proptest. A fault-free recorded run enumerates EVERY fault site (each create, write, fsync, unlink call on a store file, the initial open included); the workload is then re-run from scratch once per site and fault kind (ENOSPC, EIO, and for writes additionally a short write followed by EIO), the single transient fault injected by the LD_PRELOAD shim. Oracle per run: the op during which the fault fired returns Err; every other op returns Ok and matches the model, where the failed op's own key may read as its old or its new value until the next acknowledged op on it; all keys are re-read after every op; after the workload the directory opens and reads the same way. evaluations = faulted runs. Non-trivial: a fault that fired inside a merge, a rollover or a multi-call append; distinct = (workload hash, site, fault kind).",
+        rule: "Workloads (3-12 ops quick / up to 30 thorough over set/get/del/merge/reopen, entries below and above the 8 KiB write buffer, rollovers, all-eligible merges, sync none or always) are generated by proptest. A fault-free recorded run enumerates EVERY fault site (each create, write, fsync, unlink call on a store file, the initial open included); the workload is then re-run from scratch once per site and fault kind (ENOSPC, EIO, and for writes additionally a short write followed by EIO), the single transient fault injected by the LD_PRELOAD shim. A quarter of the workloads issue their set/get/del in the faulted runs as RESP commands over one connection to an in-process server on the store's handle (an error reply, or the connection ended without a reply, is the operation's error; the harness reconnects). Oracle per run: the op during which the fault fired returns Err; every other op returns Ok and matches the model, where the failed op's own key may read as its old or its new value until the next acknowledged op on it; all keys are re-read after every op; after the workload the directory opens and reads the same way. evaluations = faulted runs. Non-trivial: a fault that fired inside a merge, a rollover or a multi-call append; distinct = (workload hash, site, fault kind).",
         assumptions: &[
             "one transient fault per run; the same call succeeds when retried",
             "the single threaded workload with merge policy never issues the same call sequence in every run (runs where the armed site was not reached are counted as fault-did-not-fire and not judged)",
